@@ -240,6 +240,33 @@ def list_stream(ctx, res, n):
             ad.append(F.WRONG[rng.randrange(len(F.WRONG))])
         except Exception:  # noqa
             pass
+        # `+` and `*` give a new list and leave their operands alone, like the built-in, whatever the other operand is (also an empty one)
+        ok_item = fld.validate(cfg, rng.choice(pool_ok))
+        for what, make, want in [("+ []", lambda: proxy + [], lambda b: b + []), ("+ ()", lambda: proxy + (), lambda b: b + []),
+                                 ("+ own empty copy", lambda: proxy + proxy.copy()[0:0], lambda b: b + []),
+                                 ("+ [item]", lambda: proxy + [ok_item], lambda b: b + [ok_item]),
+                                 ("* 0", lambda: proxy * 0, lambda b: b * 0), ("* 2", lambda: proxy * 2, lambda b: b * 2), ("* -1", lambda: proxy * -1, lambda b: b * -1),
+                                 ("0 *", lambda: 0 * proxy, lambda b: 0 * b), ("* False", lambda: proxy * False, lambda b: b * False)]:
+            before = list(proxy)
+            try:
+                r = make()
+            except Exception as e:  # noqa
+                res.violate("C17:operator-raised", "`typed %s` raised %s" % (what, type(e).__name__), {"stream": "list", "item": item, "operator": what})
+                continue
+            res.hist["lop:operator"] += 1
+            if not c05.same(list(r), want(before)):
+                res.violate("C17:operator-result", "`typed %s` does not give what the built-in list gives" % what,
+                            {"stream": "list", "item": item, "operator": what, "got": [F.enc_val(x) for x in r], "want": [F.enc_val(x) for x in want(before)]})
+            if r is proxy:
+                res.violate("C17:operator-aliases-operand", "`typed %s` returned the operand itself instead of a new list" % what, {"stream": "list", "item": item, "operator": what})
+            else:
+                try:
+                    r.append(ok_item)
+                    r.reverse()
+                except Exception:  # noqa
+                    pass
+                if not c05.same(list(proxy), before):
+                    res.violate("C17:operator-aliases-operand", "changing the result of `typed %s` changed the operand" % what, {"stream": "list", "item": item, "operator": what})
         res.case(stable([item, wire_ops]) if len(kinds_used) >= 3 and iter_nonlist else None,
                  sample={"item": item, "ops": wire_ops[:5]} if i < 2 else None, kind="list-history")
         for k in kinds_used:
